@@ -2,6 +2,7 @@ package main
 
 import (
 	"fmt"
+	"runtime"
 	"sort"
 	"strings"
 
@@ -177,6 +178,9 @@ func (ms *MapScen) setup0() (m MapLike, st MState, infra bool, problem string) {
 			// contents at some point of the sequential prologue is a violation, anything else is not a verdict
 			if msg := fmt.Sprint(r); strings.HasPrefix(msg, "COUNT:") {
 				problem = "sequential prologue: " + msg
+			} else if _, isRT := r.(runtime.Error); isRT {
+				// the harness panics with strings; a runtime error comes from the code under test
+				problem = "sequential prologue: the code under test panics: " + msg
 			} else {
 				problem, infra = fmt.Sprintf("scenario cannot be armed: %v", r), true
 			}
